@@ -81,6 +81,24 @@ var Meta = map[string]PropMeta{
 		Quick:     q(150, 60*time.Second),
 		Thorough:  q(6000, 25*time.Minute),
 	},
+	"C05": {
+		Level:     "exploration",
+		Technique: "deterministic simulation with a hostile reference sender: the real receiving client (pull from a hostile daemon) and the real writable daemon module (upload from a hostile client, incl. sub-directory arguments) are fed file lists built from an escape-vector grammar; a ring of canary objects around the destination is compared before/during/after; block checksums requested by the real generator are matched against the canaries' signatures to detect reads",
+		Rule:      "2-9 hostile entries per list drawn from 34 name vectors (.. components, absolute names, names through pre-existing symlinks pointing out of the root, names through symlinks sent earlier in the same list (evil -> ../sibling_dir, evil2 -> absolute dir, evil_up -> ..), a/../.. forms, name-prefix siblings) x entry types regular file (basis open, temp file, rename), directory (mkdir, chmod, chtimes), symlink, fifo, socket, char device (mknod), with a random subset of -l -p -t -o -g -D --delete -I -c so that chmod/chtimes/chown/delete are attempted; module side also draws the upload sub-directory from {'', sub/, link_out/, link_up/, ../, ../sibling_dir/, link_abs/, a/../../}. Oracle: every object outside the root (sibling file, sibling directory, name-prefix sibling, absolute-path canary, /etc probe) has identical existence, content, mode, mtime, owner at every 16th scheduler step and at the end; no request carries the block signature of a canary. Any error or skip is acceptable. Non-trivial = every run",
+		Assumptions: []string{"runs as root, so ownership and device creation are really attempted", "a crash of the receiver is recorded as a probe here and judged by C08"},
+		Real:      realCommon, Stub: append([]string{"hostile peer: reference sender"}, stubCommon...),
+		Quick:     q(400, 50*time.Second),
+		Thorough:  q(30000, 20*time.Minute),
+	},
+	"C06": {
+		Level:     "exploration",
+		Technique: "deterministic simulation with a hostile reference receiver: the real daemon (directory- and fs.FS-backed modules, several modules whose names are prefixes of each other) receives request paths from a traversal grammar; the raw server byte stream is scanned for canary secrets and the decoded file list is checked against the module's real contents",
+		Rule:      "module line from {mod, modx, mo, modfs} and one of 45 path forms (module/.., module/../x, module//../, absolute paths, paths through inside symlinks that point to an outside directory/file/absolute directory/.., empty and '.' components, other-module prefixes, NUL and blank components) with a random subset of -r -l -c -t -p -D -o -g; the reference receiver requests every listed regular file. Oracle: the server's raw bytes never contain the content (first 40/last 64 bytes), the MD4 or the name of an object outside the module (names may occur only as link targets of inside symlinks), nor another module's content; every decoded list entry names an existing object inside the module reached without a symlink or '..'. Non-trivial = every run",
+		Assumptions: []string{"canary contents are 2 KB random strings so accidental occurrence is impossible", "link target strings of symlinks inside the module are module data and may name outside paths"},
+		Real:      realCommon, Stub: append([]string{"hostile peer: reference receiver"}, stubCommon...),
+		Quick:     q(500, 50*time.Second),
+		Thorough:  q(40000, 20*time.Minute),
+	},
 	"C07": {
 		Level:     "exploration",
 		Technique: "deterministic simulation: real daemon with modules of mixed writability behind Serve(simulated listener) or HandleDaemonConn, attacked by the real pushing client and by a reference protocol-27 sender with hand-written argument lines; module snapshot as step invariant and final oracle",
